@@ -9,7 +9,7 @@ Oracle: the reference error algebra of the statement (operators strict, left ope
 literal aborts the formula, traps see every error value)."""
 import itertools
 
-from ..core import Sub, fail, CANON_CODES
+from ..core import Sub, fail, CANON_CODES, scale
 
 ETYPE = {'#NULL!': 1, '#DIV/0!': 2, '#VALUE!': 3, '#REF!': 4, '#NAME?': 5, '#NUM!': 6, '#N/A': 7,
          '#GETTING_DATA': 8}
@@ -420,4 +420,50 @@ def _replace(t, pos, repl):
     return _replace_leaf(t, pos, repl)
 
 
-SUBS = [Propagate(), LeftWins(), Literals(), Controls(), Trees()]
+
+class ErrorScale(Sub):
+    name = 'c08.scale'
+    rule = ('size ladder of the length n of an operator chain / argument list / nesting depth with ONE error value at the first, '
+            'middle or last place: 1+1+...+E+...+1 (also & and =), SUM of n arguments, n nested ABS(...) / -(...) around the '
+            'error, IFERROR nested n deep; the formula is that error, trappable by IFERROR and seen by ISERROR / ISNA; '
+            'non-trivial = all')
+    min_cases = 40
+    min_nontrivial = 40
+
+    def cases(self, tier, unit):
+        for n in scale(tier):
+            yield [n]
+
+    def check(self, env, case):
+        n = case[0]
+        env.nt()
+        vars, funcs, cells = bind(env)
+        out = []
+        deep = min(n, 300)
+        for etext, code in (('1/0', '#DIV/0!'), ('evg', '#N/A'), ('FRAISE(3)', '#REF!')):
+            P = []
+            for pos in sorted(set((0, n // 2, n - 1))):
+                terms = ['1'] * n
+                terms[pos] = '(%s)' % etext
+                P += ['+'.join(terms), '&'.join(terms), 'SUM(%s)' % ','.join(terms) if n <= 1025 else '+'.join(terms),
+                      '*'.join(terms) + '=1']
+            P += ['ABS(' * deep + etext + ')' * deep, '-(' * deep + etext + ')' * deep,
+                  '(' * deep + etext + ')' * deep + '+1']
+            for f in P:
+                o = env.evo(f, vars=vars, funcs=funcs, cells=cells)
+                t = env.evo('IFERROR(%s,"trap")' % f, vars=vars, funcs=funcs, cells=cells)
+                s_ = env.evo('ISNA(%s)' % f, vars=vars, funcs=funcs, cells=cells)
+                if o != ['e', code] or t != ['v', 'trap'] or s_ != ['v', code == '#N/A']:
+                    out.append(fail('a formula of size %d holding the error %s once (%s ... %s): top level %r, IFERROR(..,"trap") %r, ISNA(..) %r; '
+                                    'expected %s, "trap", %s' % (n, etext, f[:30], f[-20:], o, t, s_, code, code == '#N/A'), code, o))
+                    break
+            if out:
+                break
+        f = 'IFERROR(' * deep + '1/0' + ',1/0)' * (deep - 1) + ',"inner")'
+        o = env.evo(f, vars=vars, funcs=funcs, cells=cells)
+        if o != ['v', 'inner']:
+            out.append(fail('IFERROR nested %d deep around 1/0 with the innermost fallback "inner" gives %r' % (deep, o), 'inner', o))
+        return out
+
+
+SUBS = [Propagate(), LeftWins(), Literals(), Controls(), Trees(), ErrorScale()]
